@@ -223,6 +223,9 @@ func (e *Engine) loadSpecs() error {
 		}
 		e.files = append(e.files, sf)
 		for _, fs := range sf.Funcs {
+			for _, ef := range fs.Effects {
+				fs.Modifies = append(fs.Modifies, "ghost:"+ef.Var)
+			}
 			switch fs.Kind {
 			case "func":
 				name := fs.Target
